@@ -53,10 +53,13 @@ Definition plen_of_digits (s : str) : option Z :=
   else None.
 
 (* ... on a dotted mask: a netmask (ones then zeros), else a host mask (zeros then ones) *)
+Definition plens : list nat := seq 0 33.
+Definition is_netmask_for (m : Z) (p : nat) : bool := Z.eqb m (2 ^ 32 - 2 ^ (32 - Z.of_nat p)).
+Definition is_hostmask_for (m : Z) (p : nat) : bool := Z.eqb m (2 ^ (32 - Z.of_nat p) - 1).
 Definition plen_of_mask (m : Z) : option Z :=
-  match find (fun p => Z.eqb m (2 ^ 32 - 2 ^ (32 - Z.of_nat p))) (seq 0 33) with
+  match find (is_netmask_for m) plens with
   | Some p => Some (Z.of_nat p)
-  | None => match find (fun p => Z.eqb m (2 ^ (32 - Z.of_nat p) - 1)) (seq 0 33) with
+  | None => match find (is_hostmask_for m) plens with
             | Some p => Some (Z.of_nat p)
             | None => None
             end
